@@ -484,6 +484,17 @@ impl<'a> Gen<'a> {
                         _ => D::Comp(self.simple_record(depth.saturating_sub(1))),
                     };
                     let tname = self.name();
+                    // now and then an earlier field announces a size for the same target as well (as bitmapLength and
+                    // cbCompMainBodySize both do for bitmapDataStream): the announcement read last is the one in force
+                    if self.r.chance(1, 4) {
+                        let extra = *self.r.pick(&[0usize, 1, 2, 8, 255]);
+                        let first = self.int_holding(size(&target) + extra);
+                        f.push(Field { name: self.name(), d: first, rel: Rel::SizeOf(tname.clone()) });
+                        if self.r.chance(1, 2) {
+                            let d = self.leaf();
+                            f.push(Field { name: self.name(), d, rel: Rel::None });
+                        }
+                    }
                     let sz = self.int_holding(size(&target));
                     f.push(Field { name: self.name(), d: sz, rel: Rel::SizeOf(tname.clone()) });
                     if self.r.chance(1, 3) {
